@@ -355,8 +355,11 @@ def rule_lean(form_line):
     return "{ " + ", ".join(fields) + ", ops := [" + ", ".join(ops) + "] }"
 
 
-VEX_REG_CLASSES = {"rvm": (0x72, 0x75), "rm": (0x68, 0x6B), "rvmi": (0x7A, 0x7C), "rmi": (0x6F, 0x71)}
-SHAPE_ROLES = {"rvm": ["reg", "vvvv", "rm"], "rm": ["reg", "rm"], "rvmi": ["reg", "vvvv", "rm", "imm"], "rmi": ["reg", "rm", "imm"]}
+VEX_REG_CLASSES = {"rvm": (0x72, 0x75), "rm": (0x68, 0x6B), "rvmi": (0x7A, 0x7C), "rmi": (0x6F, 0x71),
+                   # legacy space: ExtRm, ExtRm_P, X86Rm, X86Rm_NoSize ([reg, rm]); X86Mr, X86Mr_NoSize ([rm, reg]); ExtRmi, ExtRmi_P ([reg, rm, imm8])
+                   "lrm": (0x4A, 0x4D, 0x14, 0x16), "lmr": (0x17, 0x18), "lrmi": (0x52, 0x53), "lop": (0x01,)}
+SHAPE_ROLES = {"rvm": ["reg", "vvvv", "rm"], "rm": ["reg", "rm"], "rvmi": ["reg", "vvvv", "rm", "imm"], "rmi": ["reg", "rm", "imm"],
+               "lrm": ["reg", "rm"], "lmr": ["rm", "reg"], "lrmi": ["reg", "rm", "imm"], "lop": None}
 
 
 def class_rows_lean(kept, rows, chunk=96):
@@ -369,17 +372,25 @@ def class_rows_lean(kept, rows, chunk=96):
         entries = []
         for f, roles in kept:
             r = rows.get(f["name"])
-            if not r or int(r[1]) not in encs or f["prefix"] not in ("VEX", "EVEX"):
+            legacy = shape.startswith("l")
+            if not r or int(r[1]) not in encs or (f["prefix"] not in ("VEX", "EVEX") if not legacy else f["prefix"] != ""):
                 continue
-            if roles != SHAPE_ROLES[shape]:
+            if legacy and f["arch"] == "X86":
+                continue      # 32-bit-only form (the class theorems are stated for 64-bit mode)
+            if shape == "lop":
+                if not all(o["implicit"] for o in f["operands"]) or f["imm"] or f["op"].get("mod") or f["op"].get("mm") == "0F01":
+                    continue
+            elif roles != SHAPE_ROLES[shape]:
                 continue
-            if (f["prefix"] == "EVEX" and not int(r[4], 16) & 0x800000) or (f["prefix"] == "VEX" and not int(r[4], 16) & 0x400000):
+            if legacy:
+                pass
+            elif (f["prefix"] == "EVEX" and not int(r[4], 16) & 0x800000) or (f["prefix"] == "VEX" and not int(r[4], 16) & 0x400000):
                 continue      # database form of an encoding space the instruction table does not implement (e.g. AVX10.2 EVEX vmpsadbw)
-            if int(r[4], 16) & 0x1000000:
+            if not legacy and int(r[4], 16) & 0x1000000:
                 continue      # kPreferEvex instructions (AVX_VNNI / IFMA): the VEX form needs the `vex` option - not covered by the class theorems
             kinds = []
             okf = True
-            for o, role in zip(f["operands"], roles):
+            for o, role in zip(f["operands"] if shape != "lop" else [], roles):
                 if role == "imm":
                     if o["imm"] != 8:
                         okf = False
